@@ -686,6 +686,29 @@ fn introspect(exec: Exec, expected: &Sch, sdl: Option<&str>) -> Result<(Introspe
             Err(e) => devs.push(Dev::Other(format!("exported SDL: {}", e))),
         }
     }
+    // the same lists asked for with includeDeprecated: true may only add input values the schema shows to this request
+    let resp2 = exec(Request::new(introspection_query_with_deprecated_inputs()));
+    if !resp2.errors.is_empty() {
+        devs.push(Dev::Other(format!("the introspection query with includeDeprecated: true on args / inputFields is answered with errors: {}", errors_of(&resp2))));
+    } else {
+        let intro2 = introspection_to_sch(&resp_data(&resp2));
+        for (name, t2) in &intro2.sch.types {
+            let Some(te) = expected.types.get(name) else { continue };
+            for f2 in &t2.fields {
+                let Some(fe) = te.fields.iter().find(|f| f.name == f2.name) else { continue };
+                for a in &f2.args {
+                    if !fe.args.iter().any(|x| x.name == a.name) {
+                        devs.push(Dev::Other(format!("args(includeDeprecated: true) of {}.{} lists `{}`, which the schema does not show to this request", name, f2.name, a.name)));
+                    }
+                }
+            }
+            for a in &t2.input_fields {
+                if !te.input_fields.iter().any(|x| x.name == a.name) {
+                    devs.push(Dev::Other(format!("inputFields(includeDeprecated: true) of {} lists `{}`, which the schema does not show to this request", name, a.name)));
+                }
+            }
+        }
+    }
     for std in ["skip", "include", "deprecated"] {
         if !intro.directives.iter().any(|d| d.name == std) {
             devs.push(Dev::Other(format!("directive @{} is not listed", std)));
